@@ -14,7 +14,7 @@ CHECKS = {
         note="Faults by construction of the command, not by failing system calls; non-interactive session (terminal ownership not observable). Helper threads still alive, sys.std* identity, runs exceeding the time limit, stale handlers and zombies depend on thread timing the harness does not control and are reported as ADVISORY only. One descriptor leak is a known finding.",
     ),
     "C01": dict(
-        category="model_checking",
+        category="exploration",
         technique="TLA+ spec PyGrammar over production tables generated from harness/pygrammar.py (401 named productions of the Python 3.12 grammar, slot kinds, well-formed derivations, table sanity as ASSUMEs) checked by TLC; every derivation - each production alone in 14 layouts and 3 modes, every (parent, slot, child) nesting, depth-3 nestings from fixed random streams - rendered to source, parsed by CPython (oracle for membership and tree) and by xonsh's parser on an LALR table regenerated from the working tree; outcomes validated against PyGrammarTrace by TLC, failures explained only by listed productions / nestings (generated module PyGrammarKnown)",
         text="The model contributes the enumerated, structured universe (about 1.7 x 10^5 distinct programs in the thorough tier, 2.5 x 10^4 in the quick tier) and the judgement `CPython accepts => xonsh accepts, same tree, compiles`; the decision for each program is the differential comparison with CPython's own parser after location-free normalisation that keeps node kinds, every identifier-bearing field, constants by type and value, contexts, operators, arity and order (a strict comparison, unlike the suite's nodes_equal). A failing derivation is accepted only if it contains a production, nesting or layout listed in known_findings_c01.json (written by a triage tool from a complete run on the pinned tree); any other failure is a violation.",
         design_ref="3/C01, A.2",
@@ -174,7 +174,7 @@ def main():
             "guard": "XONSH_XONSH_VERIF",
             "enable": "checks import /repo's working tree directly (PYTHONPATH=/repo, /venv/bin/python); hook points are active only when XONSH_XONSH_VERIF=1 is set in the worker environment",
             "baseline_off_cmd": "cd /repo && env -u XONSH_XONSH_VERIF /venv/bin/python -m pytest -ra -q -p no:cacheprovider --timeout=900 --continue-on-collection-errors",
-            "source_commits": ["15cb5b7", "8cef7df", "eef0bde"],
+            "source_commits": ["15cb5b7", "8cef7df", "eef0bde", "96f7e2b"],
             "add_only": True,
         },
         "engines": [
@@ -182,7 +182,7 @@ def main():
         ],
         "checks": checks,
         "not_applicable": [{"property_id": p, "reason": "not built in the time available: the Resources ownership-ledger model and the /proc/self snapshot harness of DESIGN.md section 3/C09 remain design (DESIGN.md A.5); nothing is claimed through a stub"} for p in ALL if p not in CHECKS],
-        "notes": "See DESIGN.md. exit 0 = held (KNOWN-FINDING lines for entries of known_findings.json), exit 1 = VIOLATION, exit 2 = machinery failure.",
+        "notes": "See DESIGN.md (section A = as built). exit 0 = held (KNOWN-FINDING lines for open entries of known_findings.json, and for C01 of known_findings_c01.json; ADVISORY lines never affect the status), exit 1 = VIOLATION, exit 2 = machinery failure. Random parts of every universe come from 24 fixed streams: the quick tier visits stream VERIF_SEED mod 24, the thorough tier all of them.",
     }
     with open(os.path.join(VERIF, "MANIFEST.json"), "w") as fh:
         json.dump(man, fh, indent=1)
